@@ -868,6 +868,14 @@ func coerceToColumn(column *Column, dv driver.Value) (driver.Value, bool) {
 	if err != nil {
 		return nil, false
 	}
+	// A number outside the column's range wraps around when it is converted to
+	// the column's type (300 for an int8 column becomes 44): the column cannot
+	// hold it, so no row has it.
+	if in, ok := dv.(int64); ok {
+		if res, ok := out.(int64); ok && res != in {
+			return nil, false
+		}
+	}
 	return out, true
 }
 
